@@ -2,6 +2,7 @@ package scen
 
 import (
 	"fmt"
+	"strings"
 	"sync"
 	"time"
 
@@ -28,7 +29,7 @@ func init() {
 			"after a failure a second request meets a well-behaved camera. Oracle: success = right URL, correct credentials, stream under the requested path, camera packets reach the requester; failure = 404-style answer, nothing registered, " +
 			"camera connection closed, counters back, no goroutine left, later request dials afresh; concurrent requests end with one registered stream. distinct = event-log hash; non-trivial = a camera fault fired or a pre-emption",
 		Assumptions:    []string{"handshake and play timeouts are those of the code (15 s connect, 45 s read); 'promptly' is checked with a budget of 150 simulated seconds"},
-		RequiredProbes: []string{"c20.success", "c20.failure-clean", "c20.refetch-after-failure", "c20.concurrent-requests"},
+		RequiredProbes: []string{"c20.success", "c20.failure-clean", "c20.refetch-after-failure", "c20.concurrent-requests", "c20.camera-never-stops", "c20.idle-close-with-live-camera"},
 	})
 }
 
@@ -74,13 +75,22 @@ func buildC20(tier string) sim.Scenario {
 		good := camPlan{step: -1, user: tg.user, pw: tg.pw, packets: 20, gap: 20 * time.Millisecond, auth: map[bool]string{true: "digest", false: ""}[tg.user != ""]}
 		farm = &camFarm{w: w, plans: []camPlan{plan, good}}
 		simnet.Dial = farm.dial
-		concurrent := plan.step == -1 && plan.auth != "repeated" && tp.OneIn(3)
+		endless := plan.step == -1 && plan.auth != "repeated" && tp.OneIn(4)
+		if endless {
+			plan.packets, plan.gap = 3000, 500*time.Millisecond
+			farm.plans[0] = plan
+		}
+		concurrent := plan.step == -1 && plan.auth != "repeated" && !endless && tp.OneIn(3)
 		expectOK := plan.auth != "repeated" && (plan.step == -1 || plan.step == 6)
 		w.Logf("c20 path=%s plan=%+v concurrent=%v expectOK=%v", tg.path, plan, concurrent, expectOK)
 
 		if concurrent {
 			// 2-3 media-level requesters race the first request for one path
 			w.Probe("c20.concurrent-requests")
+			if tp.Bool() { // cameras that never stop sending: a retired pull must notice from its own stream, not from silence
+				plan.packets, plan.gap = 3000, 500*time.Millisecond
+				w.Probe("c20.camera-never-stops")
+			}
 			farm.plans = []camPlan{plan, plan, plan}
 			n := 2 + tp.Choose(2)
 			var wg sync.WaitGroup
@@ -230,7 +240,11 @@ func buildC20(tier string) sim.Scenario {
 				sentAtPlay = len(cam.sent)
 				cam.mu.Unlock()
 				// read until the stream ends (camera fault while streaming) or the camera has sent everything
-				cl.drain(time.Duration(plan.packets)*plan.gap + 100*time.Second)
+				if endless {
+					cl.drain(20 * time.Second)
+				} else {
+					cl.drain(time.Duration(plan.packets)*plan.gap + 100*time.Second)
+				}
 			}
 			// frames are the camera's packets, contiguous per channel
 			perCh := map[int][]string{}
@@ -269,6 +283,40 @@ func buildC20(tier string) sim.Scenario {
 			}
 		}
 		cl.c.Close()
+		if ok && plan.step == -1 && endless {
+			// the only consumer left while the camera keeps sending: a stream whose route does not keep it alive is
+			// closed by the idle scan, and then the pull behind it has to go too
+			w.Sleep(11 * time.Minute)
+			keep := strings.HasPrefix(strings.ToLower(tg.path), "/dir2/")
+			if !keep {
+				w.Probe("c20.idle-close-with-live-camera")
+				if media.Get(tg.path) != nil {
+					w.Fail("C20/stays-registered", "the pulled stream %s (route without keep-alive) is still registered 11 minutes after its only consumer left", tg.path)
+					return
+				}
+				cam.mu.Lock()
+				closed := cam.sawClose
+				cam.mu.Unlock()
+				if !closed {
+					w.Fail("C20/camera-connection-leak", "the pulled stream %s was closed for idleness but the connection to the (still sending) camera is open 11 minutes after the only consumer left", tg.path)
+					return
+				}
+				if d := sw.activeDelta(); d[0] != 0 {
+					w.Fail("C20/conn-count-leak", "active RTSP connection counter is off by %d after the idle pulled stream was closed", d[0])
+					return
+				}
+				before := len(farm.dials)
+				ok2, cl2, st2 := request("req2")
+				if w.Failed() {
+					return
+				}
+				if len(farm.dials) == before || !ok2 {
+					w.Fail("C20/no-refetch", "a request after the idle close did not pull afresh (dialled again=%v, answered %d)", len(farm.dials) != before, st2)
+					return
+				}
+				cl2.c.Close()
+			}
+		}
 		if !ok || plan.step == 6 || !expectOK {
 			// ---- failure clean-up ----
 			w.Sleep(60 * time.Second)
